@@ -87,8 +87,20 @@ func c29ExpUF(x, y, m *big.Int) []byte {
 		verifrt.Assume(out[0] != 0)
 		return out
 	}
-	return verifrt.UFBytes("c29modexp", 8*len(m.Bits()), c29BigBytes(x), c29BigBytes(y), c29BigBytes(m))
+	out := verifrt.UFBytes("c29modexp", 8*len(m.Bits()), c29BigBytes(x), c29BigBytes(y), c29BigBytes(m))
+	if c29ExpTopNZ {
+		verifrt.Assume(out[0] != 0)
+	}
+	return out
 }
+
+// c29ExpTopNZ (set by the classic DH transcript harnesses): Exp results have a non-zero leading byte,
+// i.e. 2^56 <= r < 2^64; avoids one path per number of leading zero bytes of e, f and K in the mpint
+// encoder (leading-zero secrets are covered by the X25519 harnesses and by C24).
+var c29ExpTopNZ bool
+
+// c29LastRand is the last value handed out by the rand.Int stub.
+var c29LastRand *big.Int
 
 // c29BigBytes: |x| as big-endian bytes, one 8-byte group per word (word count is concrete per path).
 func c29BigBytes(x *big.Int) []byte { return x.FillBytes(make([]byte, 8*len(x.Bits()))) }
@@ -101,7 +113,15 @@ func c29StubRandInt(r io.Reader, max *big.Int) (*big.Int, error) {
 	if !verifrt.Symbolic() || !c29On {
 		return crand.Int(r, max)
 	}
-	return new(big.Int).SetUint64(verifrt.U64() >> 1), nil
+	v := verifrt.U64() >> 1
+	if max.BitLen() <= 63 {
+		// small groups (classic DH transcript harnesses): an odd value below max (non-zero, so that the
+		// "retry while x == 0" loop of dhGroup.Client/Server ends at once)
+		v |= 1
+		verifrt.Assume(v < max.Uint64())
+	}
+	c29LastRand = new(big.Int).SetUint64(v)
+	return new(big.Int).SetUint64(v), nil
 }
 
 // c29DHBounds: dhGroup.diffieHellman over the group (g = 2, p) for EVERY integer theirPublic with
@@ -484,6 +504,118 @@ func Verif_C29_X25519Server() {
 	sig := c29Cat(c29Str([]byte(c29KeyAlgo)), c29Str(c29SigBlob(key.blob, res.H)))
 	verifrt.Assert(c29Same(res.Signature, sig), "result signature is the host key's signature on H")
 	verifrt.Assert(len(conn.out) == 1 && c29Same(conn.out[0], c29Cat([]byte{31}, c29Str(key.blob), c29Str(qs), c29Str(sig))), "server sends SSH_MSG_KEX_ECDH_REPLY(K_S, Q_S, signature on H)")
+	verifrt.Reach("replied")
+}
+
+// ---------------------------------------------------------------------------------------------
+// diffie-hellman-groupN (RFC 4253 section 8) over a small group: bounds check wired into Client/Server
+// and exchange hash H = HASH(V_C, V_S, I_C, I_S, K_S, e, f, K), e, f, K as mpints.
+
+// c29Mpint: RFC 4251 mpint encoding of a non-negative big-endian magnitude (constructive reference).
+func c29Mpint(mag []byte) []byte {
+	i := 0
+	for i < len(mag) && mag[i] == 0 {
+		i++
+	}
+	m := mag[i:]
+	if len(m) > 0 && m[0]&0x80 != 0 {
+		m = append([]byte{0}, m...)
+	}
+	return c29Str(m)
+}
+
+func c29SmallGroup() *dhGroup {
+	p := new(big.Int).SetUint64(1<<61 - 1)
+	return &dhGroup{g: big.NewInt(2), p: p, pMinus1: new(big.Int).Sub(p, bigOne), hashFunc: crypto.SHA256}
+}
+
+// c29PeerInt: an arbitrary mpint content of 0..9 bytes as the peer's public value: returns the content,
+// its magnitude if non-negative, and whether 1 < value < p-1 for p = 2^61-1 (byte-level).
+func c29PeerInt(group *dhGroup, with9 bool) (content []byte, valid bool) {
+	// lengths: 0 (zero), 1 (0, 1, small, negative), 8 (around p-1, p; top bit set = negative), 9 (above
+	// 2^64, 00-padded values); the full 0..9 range is explored by Verif_C29_DHBounds61 on diffieHellman.
+	lens := []int{8, 1, 0}
+	if with9 {
+		lens = append(lens, 9)
+	}
+	content = verifrt.Bytes(lens[verifrt.Choose(0, len(lens)-1)])
+	if len(content) > 0 && content[0] >= 0x80 {
+		return content, false // negative
+	}
+	w := 10
+	m := c29Pad(content, w)
+	return content, c29Less(c29Pad([]byte{1}, w), m) && c29Less(m, c29Pad(group.pMinus1.Bytes(), w))
+}
+
+// Verif_C29_DHClient: dhGroup.Client (the code behind diffie-hellman-group1/14/16) over p = 2^61-1 with
+// an arbitrary server reply: host key blob 4 bytes, f = ANY mpint content of 0, 1, 8 or 9 bytes (negative,
+// non-minimal, 0, 1, p-1, p, larger), signature 3 bytes.  Stubs: rand.Int (odd value below p-1), Exp
+// (uninterpreted, leading byte non-zero), SHA-256 (recording).  Decided: e sent = mpint(g^x mod p); the reply is
+// rejected exactly when not 1 < f < p-1; otherwise K = mpint(f^x mod p) and
+// H = HASH(V_C || V_S || I_C || I_S || K_S || e || f || K) with f re-encoded minimally; host key and
+// signature are handed on for verification.
+func Verif_C29_DHClient() {
+	c29On, c29ExpTopNZ = true, true
+	group := c29SmallGroup()
+	mg := c29NewMagics()
+	ks, sig := verifrt.Bytes(4), verifrt.Bytes(3)
+	fc, valid := c29PeerInt(group, true)
+	conn := &c29Conn{in: [][]byte{c29Cat([]byte{31}, c29Str(ks), c29Str(fc), c29Str(sig))}}
+	var res *kexResult
+	var err error
+	pn := verifrt.Panics(func() { res, err = group.Client(conn, &c29Rand{}, &mg.m) })
+	verifrt.Assert(!pn, "DH Client does not panic")
+	if !verifrt.Symbolic() {
+		return // natively rand.Int/Exp are the real ones: the transcript is only comparable symbolically
+	}
+	x := c29LastRand
+	e := c29Mpint(c29ExpUF(group.g, x, group.p))
+	verifrt.Assert(len(conn.out) == 1 && c29Same(conn.out[0], c29Cat([]byte{30}, e)), "client sends SSH_MSG_KEXDH_INIT(e = g^x mod p)")
+	if !valid {
+		verifrt.Assert(err != nil && res == nil, "f <= 1 or f >= p-1 is rejected")
+		verifrt.Reach("rejected")
+		return
+	}
+	verifrt.Assert(err == nil && res != nil, "valid f is accepted")
+	k := c29Mpint(c29ExpUF(new(big.Int).SetBytes(fc), x, group.p))
+	verifrt.Assert(c29Same(res.K, k), "K = mpint(f^x mod p)")
+	want := c29H(c29Cat(mg.transcript, c29Str(ks), e, c29Mpint(fc), k))
+	verifrt.Assert(c29Same(res.H, want), "H = HASH(V_C || V_S || I_C || I_S || K_S || e || f || K)")
+	verifrt.Assert(c29Same(res.HostKey, ks) && c29Same(res.Signature, sig), "result carries host key and signature for verification")
+	verifrt.Reach("accepted")
+}
+
+// Verif_C29_DHServer: dhGroup.Server over p = 2^61-1 with an arbitrary client e (any mpint content of 0, 1 or 8
+// bytes).  Decided: e outside (1, p-1) is rejected and nothing is sent; otherwise f = g^y mod p, K =
+// mpint(e^y mod p), H as above, the reply is SSH_MSG_KEXDH_REPLY(K_S, f, signature of the host key on H).
+func Verif_C29_DHServer() {
+	c29On, c29ExpTopNZ = true, true
+	group := c29SmallGroup()
+	mg := c29NewMagics()
+	key := &c29Key{blob: verifrt.Bytes(4)}
+	ec, valid := c29PeerInt(group, false)
+	conn := &c29Conn{in: [][]byte{c29Cat([]byte{30}, c29Str(ec))}}
+	var res *kexResult
+	var err error
+	pn := verifrt.Panics(func() { res, err = group.Server(conn, &c29Rand{}, &mg.m, key, c29KeyAlgo) })
+	verifrt.Assert(!pn, "DH Server does not panic")
+	if !verifrt.Symbolic() {
+		return
+	}
+	if !valid {
+		verifrt.Assert(err != nil && res == nil && len(conn.out) == 0, "e <= 1 or e >= p-1 is rejected, nothing sent")
+		verifrt.Reach("rejected")
+		return
+	}
+	verifrt.Assert(err == nil && res != nil, "valid e is accepted")
+	y := c29LastRand
+	f := c29Mpint(c29ExpUF(group.g, y, group.p))
+	k := c29Mpint(c29ExpUF(new(big.Int).SetBytes(ec), y, group.p))
+	verifrt.Assert(c29Same(res.K, k), "K = mpint(e^y mod p)")
+	want := c29H(c29Cat(mg.transcript, c29Str(key.blob), c29Mpint(ec), f, k))
+	verifrt.Assert(c29Same(res.H, want), "H = HASH(V_C || V_S || I_C || I_S || K_S || e || f || K)")
+	sig := c29Cat(c29Str([]byte(c29KeyAlgo)), c29Str(c29SigBlob(key.blob, res.H)))
+	verifrt.Assert(len(conn.out) == 1 && c29Same(conn.out[0], c29Cat([]byte{31}, c29Str(key.blob), f, c29Str(sig))), "server sends SSH_MSG_KEXDH_REPLY(K_S, f, signature on H)")
 	verifrt.Reach("replied")
 }
 
